@@ -51,13 +51,18 @@ PROPS["C13"] = {
     "technique": "Lean 4 theorems (closed form of the writer state machine, all op sequences) + differential correspondence with the real responseWriter",
     "level_text": "Every clause of C13 is a Lean theorem over Model/Writer for all operation sequences, methods and short writes "
                   "(closed form in terms of the first trigger); the model is tied to response_writer.go by an exhaustive-to-depth "
-                  "and random differential check against a spy writer on every run.",
+                  "and random differential check against a spy writer on every run. Stacks of two writers (a flamego writer wrapping "
+                  "another one: mounted applications, sub-requests) are modelled too (Model/WriterNest): stack_projects shows each "
+                  "level is an ordinary writer on an operation sequence of its own, so every clause holds at both levels "
+                  "(stack_client_one_status, stack_client_status_first, stack_levels_truthful, stack_head_no_body); exhaustive and "
+                  "random two-level sessions over all four method pairs are compared on every run.",
     "level_note": "Trusted: Lean kernel; the model is hand-written and tied by differential testing only; hooks are observers; codes 100..999.",
-    "props_modules": ["Flamego.Props.C13"],
+    "props_modules": ["Flamego.Props.C13", "Flamego.Props.C13Nest"],
     "suite": "C13",
     "stats": generic_stats(_c13_nontrivial,
         "sessions = operation sequences on one responseWriter (exhaustive to a depth over a 9-op alphabet for GET and HEAD, "
-        "then random up to 13 ops); distinct by op text; non-trivial = a status line was sent AND the underlying trace has "
+        "then random up to 13 ops) and on a stack of two (inner wraps outer; exhaustive to depth 2/3 over both levels and the four "
+        "GET/HEAD pairs, then random); distinct by op text; non-trivial = a status line was sent AND the underlying trace has "
         "at least one more event (hook, body, flush)"),
     "known_match": no_known,
     "trusted_base": COMMON_TRUST + [
